@@ -61,8 +61,15 @@ def build(case, rng, pre):
     """pre: dict(updates=int, merge=int, reset_mid=bool) -> a metric with that history."""
     label, name, kw, call, cls = case
     m = basecalls.make(name, kw, cls)
-    for u in gen_updates(rng, call, pre["updates"]):
+    for k, u in enumerate(gen_updates(rng, call, pre["updates"])):
         do_update(m, u)
+        if pre.get("compute_mid") and k % 2 == 0:
+            compute_val(m)
+    if pre.get("compute_mid"):
+        compute_val(m)
+    if pre.get("load_mid"):
+        # a checkpoint round trip inside the history: restore into the SAME object
+        m.load_state_dict(m.state_dict())
     if pre.get("merge"):
         others = []
         for _ in range(pre["merge"]):
@@ -79,7 +86,8 @@ def build(case, rng, pre):
 
 
 def gen_pre(rng):
-    return {"updates": rng.choice([0, 1, 2, 2, 4, 7]), "merge": rng.choice([0, 0, 1, 2]), "reset_mid": rng.random() < 0.15}
+    return {"updates": rng.choice([0, 1, 2, 2, 4, 7]), "merge": rng.choice([0, 0, 1, 2]), "reset_mid": rng.random() < 0.15,
+            "compute_mid": rng.random() < 0.5, "load_mid": rng.random() < 0.3}
 
 
 def same(a, b):
